@@ -75,7 +75,7 @@ def sort_of_validator(v):
     if n == '_DeepIterable':
         m = sort_of_validator(v.member_validator)
         if m[0] == 'enum':
-            return ('flags', m[1])
+            return ('enumlist', m[1])        # an ordered list of members; flag-set fields are declared by a hint
         return ('list', m)
     raise NoSort(n)
 
@@ -135,6 +135,15 @@ def make(P, sort, name, depth):
     if k == 'flags':
         ms = list(sort[1])
         return SFlags(sort[1], {m: V.fresh_bool('%s_%s' % (name, m.name)) for m in ms})
+    if k == 'enumlist':
+        ms = list(sort[1])
+        s, facts = V.base_seq(name, 'list', byte_valued=False)
+        for f in facts:
+            P.assume(f)
+        j = z3.Int('j!q')
+        P.assume(z3.ForAll([j], z3.And(s.at(j) >= 0, s.at(j) < len(ms))))
+        s.elem = ('enum', sort[1])
+        return s
     if k == 'list':
         out = []
         for i in range(MAX_ITEMS):
